@@ -9,7 +9,7 @@
 using namespace xmc;
 
 namespace {
-constexpr int ALIVE = 0, DTOR = 10000, NEXTID = 20000;
+constexpr int ALIVE = 0, DTOR = 10000, NEXTID = 20000, PUBLISHED = 30000;
 const char* const kOps[] = {"acquire", "acquire_if_equal", "acquire_if_mismatch", "reset", "copy_assign", "move_assign", "swap", "reclaim", "copy_construct",
                             "from_ptr", "replace_cell", "snapshot_acquire", "snapshot_acquire_if_equal", "hold_K_guards"};
 enum { G_ACQUIRE, G_AIE_MATCH, G_AIE_MISMATCH, G_RESET, G_COPY_ASSIGN, G_MOVE_ASSIGN, G_SWAP, G_RECLAIM, G_COPY_CONSTRUCT, G_FROM_PTR, G_REPLACE, G_SNAP_ACQ, G_SNAP_AIE, G_HOLD_K, NGOPS = 10 };
@@ -380,6 +380,37 @@ struct Algebra {
         join_all();
       }
     }
+    // Conservation: every guard has been reset or destroyed, so whatever protection the operations above shared,
+    // transferred or gave back, nothing may be left of it - after the last two nodes are unlinked and retired and a
+    // flush through the public API, every retired node must have been destroyed exactly once (a leaked reference count,
+    // slot or critical region keeps a node alive for ever).
+    if (opt("census", 1)) {
+      for (int cc = 0; cc < 2; cc++) {
+        GP t;
+        t.acquire(cells[cc], std::memory_order_acquire);
+        cells[cc].store(MP(nullptr, cc), std::memory_order_release);
+        if (!t) continue;
+        const int old = t->id;
+        t.reclaim();
+        md.retired[old] = true;
+      }
+      auto pending = [&] {
+        int n = 0;
+        for (int id = 1; id < 128; id++) n += md.retired[id] && cell_get(DTOR + id) == 0;
+        return n;
+      };
+      for (int r = 0; r < 12 + 6 * gens && pending(); r++) {
+        typename R::region_guard rg;
+        Node* d = make();
+        GP t{MP(d, 0)};
+        t.reclaim();
+      }
+      for (int id = 1; id < 128; id++) {
+        if (!md.retired[id]) continue;
+        if (cell_get(DTOR + id) == 0) fail("LEAK", "node %d was retired and no guard refers to it any more, but it was not destroyed after the flush", id);
+        if (cell_get(DTOR + id) != 1) fail("DOUBLE_DESTROY", "node %d was destroyed %ld times", id, cell_get(DTOR + id));
+      }
+    }
     delete[] cells;
   }
 };
@@ -412,6 +443,7 @@ void snapshot_test() {
   CP* cell = new CP;
   Node* first = new Node((int)cell_add(NEXTID, 1));
   cell->store(MP(first), std::memory_order_relaxed);
+  cell_set(PUBLISHED + 1, 1);
   Node** all = new Node*[16]();
   all[1] = first;
   for (int i = 0; i < reps; i++) {
@@ -440,6 +472,7 @@ void snapshot_test() {
           MP expected(g);
           if (cell->compare_exchange_strong(expected, MP(n), std::memory_order_acq_rel, std::memory_order_relaxed)) break;
         }
+        cell_set(PUBLISHED + n->id, 1);
         op_end();
         g.reclaim();
       } else {
@@ -494,6 +527,36 @@ void snapshot_test() {
     g.acquire(*cell, std::memory_order_acquire);
     cell->store(MP(), std::memory_order_release);
     g.reclaim();
+  }
+  // Conservation (C15: guards share and give back protection like shared-ownership smart pointers): every guard is gone,
+  // every node was unlinked and retired - after a flush through the public API each must have been destroyed exactly
+  // once.  A reference count, slot or critical region that an acquire / acquire_if_equal kept on one of its retries
+  // (seed C15e: lock_free_ref_count::acquire re-tried without giving back the reference it had taken) shows up here.
+  if (opt("census", 1)) {
+    const int created = (int)cell_get(NEXTID);
+    for (int id = 1; id <= created; id++) { // nodes the writer never got to publish go through the protocol as well
+      if (cell_get(PUBLISHED + id)) continue;
+      cell->store(MP(all[id]), std::memory_order_release);
+      GP g;
+      g.acquire(*cell, std::memory_order_acquire);
+      cell->store(MP(), std::memory_order_release);
+      g.reclaim();
+    }
+    auto pending = [&] {
+      int n = 0;
+      for (int id = 1; id <= created; id++) n += cell_get(DTOR + id) == 0;
+      return n;
+    };
+    for (int r = 0; r < 30 && pending(); r++) {
+      typename R::region_guard rg;
+      Node* d = new Node(100 + r);
+      GP t{MP(d)};
+      t.reclaim();
+    }
+    for (int id = 1; id <= created; id++) {
+      if (cell_get(DTOR + id) == 0) fail("LEAK", "node %d was unlinked and retired, no guard refers to it, but it was not destroyed after the flush", id);
+      if (cell_get(DTOR + id) != 1) fail("DOUBLE_DESTROY", "node %d was destroyed %ld times", id, cell_get(DTOR + id));
+    }
   }
   delete cell;
 }
